@@ -29,6 +29,7 @@ std::vector<Cloud> clouds3(bool th) {
   for (auto& ax : axes) for (double d : {0.5, 2.0, 50.0}) { Cloud c; c.name = "plane normal (" + std::to_string((int)ax[0]) + "," + std::to_string((int)ax[1]) + "," + std::to_string((int)ax[2]) + ") at distance " + std::to_string(d); plane_patch(c, ax, d, 9, 8, 0.11); v.push_back(c); }
   for (double sgn : {1.0, -1.0}) { Cloud c; c.name = sgn > 0 ? "tilted plane (1,2,2)/3 at 2" : "tilted plane -(1,2,2)/3 at 0.7"; plane_patch(c, {sgn * 1, sgn * 2, sgn * 2}, sgn > 0 ? 2.0 : 0.7, 12, 11, 0.09); v.push_back(c); }
   { Cloud c; c.name = "large plane 44x45 at z=3"; plane_patch(c, {0, 0, 1}, 3.0, 44, 45, 0.05); v.push_back(c); }
+  { Cloud c; c.name = "far plane at 80 m sampled every 2 cm"; plane_patch(c, {0, 1, 0}, 80.0, 15, 15, 0.02); v.push_back(c); }
   { Cloud c; c.name = "two planes meeting (roof)"; c.planar = false; for (int i = 0; i < 21; ++i) for (int j = 0; j < 10; ++j) { double x = (i - 10) * 0.1 + 0.007 * ((i * 3 + j) % 4), y = j * 0.1 + 0.009 * ((i + j * 5) % 3); c.pts.push_back({x, y, 4 - 0.5 * std::fabs(x)}); } v.push_back(c); }
   { Cloud c; c.name = "sphere patch radius 5 about (0,0,9)"; c.planar = false; for (int i = 0; i < 15; ++i) for (int j = 0; j < 15; ++j) { double a = (i - 7) * 0.04 + 0.003 * ((i * 5 + j) % 7), b = (j - 7) * 0.04 + 0.002 * ((i + 3 * j) % 5); c.pts.push_back({5 * std::sin(a), 5 * std::sin(b) * std::cos(a), 9 - 5 * std::cos(a) * std::cos(b)}); } v.push_back(c); }
   { Cloud c; c.name = "plane z=3 with ripple 0.01"; c.planar = false; for (int i = 0; i < 16; ++i) for (int j = 0; j < 16; ++j) { double x = (i - 8) * 0.1 + 0.011 * ((i * 7 + j) % 5), y = (j - 8) * 0.1 + 0.007 * ((i + j * 3) % 4); c.pts.push_back({x, y, 3 + 0.01 * std::sin(7 * x) * std::cos(5 * y)}); } v.push_back(c); }
@@ -41,6 +42,7 @@ std::vector<Cloud> clouds2(bool th) {
     for (int i = 0; i < 41; ++i) { double s = (i - 20) * 0.05 + 0.006 * ((i * 7) % 5); c.pts.push_back({d * ax[0] - s * ax[1], d * ax[1] + s * ax[0], 0}); } v.push_back(c); }
   { Cloud c; c.name = "tilted line (3,4)/5 at 0.6"; c.planar = true; c.normal = {0.6, 0.8, 0}; for (int i = 0; i < 61; ++i) { double s = (i - 30) * 0.04 + 0.005 * ((i * 3) % 7); c.pts.push_back({0.6 * 0.6 - s * 0.8, 0.6 * 0.8 + s * 0.6, 0}); } v.push_back(c); }
   { Cloud c; c.name = "long line 2000 points at y=-4"; c.planar = true; c.normal = {0, -1, 0}; for (int i = 0; i < 2000; ++i) c.pts.push_back({(i - 1000) * 0.01 + 0.002 * ((i * 7) % 3), -4, 0}); v.push_back(c); }
+  { Cloud c; c.name = "far line at 110 m sampled every 2 cm"; c.planar = true; c.normal = {1, 0, 0}; for (int i = 0; i < 60; ++i) c.pts.push_back({110, (i - 30) * 0.02 + 0.003 * ((i * 7) % 3), 0}); v.push_back(c); }
   { Cloud c; c.name = "corner (two lines meeting)"; c.planar = false; for (int i = 0; i < 40; ++i) { double s = i * 0.05 + 0.004 * ((i * 3) % 5); c.pts.push_back({2 + s, 3, 0}); c.pts.push_back({2, 3 + s + 0.021, 0}); } v.push_back(c); }
   { Cloud c; c.name = "circle arc radius 4 about (0,7)"; c.planar = false; for (int i = 0; i < 80; ++i) { double a = (i - 40) * 0.02 + 0.0017 * ((i * 5) % 7); c.pts.push_back({4 * std::sin(a), 7 - 4 * std::cos(a), 0}); } v.push_back(c); }
   { Cloud c; c.name = "line y=3 with ripple 0.01"; c.planar = false; for (int i = 0; i < 120; ++i) { double x = (i - 60) * 0.03 + 0.004 * ((i * 7) % 5); c.pts.push_back({x, 3 + 0.01 * std::sin(9 * x), 0}); } v.push_back(c); }
@@ -100,9 +102,9 @@ template <class PT> void run_cloud(vf::Ctx& c, const char* tname, const Cloud& c
     Eigen::SelfAdjointEigenSolver<LMt> es(cov);
     LD l0 = es.eigenvalues()(0), l1 = es.eigenvalues()(1), lmax = es.eigenvalues()(DIM - 1);
     LD gap = (l1 - l0) / lmax, spread = sqrtl(lmax);
-    LD bound = 16 * eps * (1 + rad / spread) * (1 + rad / spread) / std::max<LD>(gap, 1e-30L);
+    LD bound = 16 * eps * (1 + rad / spread) / std::max<LD>(gap, 1e-30L);   // two-pass covariance: centring error eps R relative to the spread s
     LD curv = DIM > 0 ? (LD)c3[i] : 0;
-    LD ctol = 64 * eps * (1 + rad / spread) * (1 + rad / spread);
+    LD ctol = 64 * eps * (1 + rad / spread);
     if (!(curv >= -ctol && curv <= (LD)1 / DIM + ctol)) c.violation("NormalAndCurvatureEstimation.curvature.range", params(), vf::JO().num("curvature", curv).done());
     if (gap <= 1e-6L || bound > 0.05L || tie) { c.trivial(); continue; }
     c.nontrivial();
@@ -147,8 +149,8 @@ void vf_run(uint64_t idx, const std::string& tier, vf::Ctx& c) {
     Cloud use = cl[ci];
     if (!is3) { switch (t) { case 0: run_cloud<Eigen::Vector2d>(c, kTypes[0], use, k, rot, init); break; case 1: run_cloud<Eigen::Vector2f>(c, kTypes[1], use, k, rot, init); break; case 2: run_cloud<HomogeneousCoordinates2d>(c, kTypes[2], use, k, rot, init); break; default: run_cloud<HomogeneousCoordinates2f>(c, kTypes[3], use, k, rot, init); } }
     else { switch (t) { case 0: run_cloud<Eigen::Vector3d>(c, kTypes[4], use, k, rot, init); break; case 1: run_cloud<Eigen::Vector3f>(c, kTypes[5], use, k, rot, init); break; case 2: run_cloud<HomogeneousCoordinates3d>(c, kTypes[6], use, k, rot, init); break; default: run_cloud<HomogeneousCoordinates3f>(c, kTypes[7], use, k, rot, init); } }
-    if (ci == 0 && rot == 0) {   // the smallest admissible cloud: k+1 points
-      Cloud small = cl[ci]; small.name += " (first k+1 points)"; small.pts.resize(std::min(small.pts.size(), k + 1));
+    if (rot == 0) {   // the smallest admissible cloud: the first k+1 points of this cloud (planar and curved ones alike)
+      Cloud small = cl[ci]; small.name += " (first k+1 points)"; { std::vector<std::array<double, 3>> sub; size_t st = std::max<size_t>(1, small.pts.size() / (k + 1)); for (size_t q = 0; q < small.pts.size() && sub.size() < k + 1; q += st) sub.push_back(small.pts[q]); small.pts = sub; }
       if (!is3) { if (t == 0) run_cloud<Eigen::Vector2d>(c, kTypes[0], small, k, 0, init); else if (t == 2) run_cloud<HomogeneousCoordinates2d>(c, kTypes[2], small, k, 0, init); }
       else { if (t == 0) run_cloud<Eigen::Vector3d>(c, kTypes[4], small, k, 0, init); else if (t == 2) run_cloud<HomogeneousCoordinates3d>(c, kTypes[6], small, k, 0, init); }
     }
@@ -162,7 +164,7 @@ std::string vf_describe(const std::string& tier) {
   o.str("rotations", "identity, Rz(0.3), Rx(1.1)Ry(-0.7) (2D: R(-2.0)), Rz(pi)");
   o.str("output_normals", "zero-initialised and default-constructed (homogeneous coordinate 1; Cartesian: constant 0.5)");
   o.str("overloads", "all six compute overloads, compared bitwise");
-  o.str("oracle", "unit Cartesian length; n.p<=0; direction vs long-double PCA of the library's own k-NN answer with bound 16 eps (1+R/s)^2/gap (cases with gap<=1e-6, bound>0.05 or a k/(k+1) distance tie are skipped); planar clouds: surface normal and zero curvature; curvature in [0,1/DIM]; R n(p) = n'(R p)");
+  o.str("oracle", "unit Cartesian length; n.p<=0; direction vs long-double PCA of the library's own k-NN answer with bound 16 eps (1+R/s)/gap (cases with gap<=1e-6, bound>0.05 or a k/(k+1) distance tie are skipped); planar clouds: surface normal and zero curvature; curvature in [0,1/DIM]; R n(p) = n'(R p)");
   return o.done();
 }
 
